@@ -48,7 +48,7 @@ func NewModelModes(modes *traits.Modes) *Model {
 	}
 
 	model := &Model{
-		modes: DefaultModes,
+		modes: modes,
 		modeValues: resource.NewValue(
 			resource.WithInitialValue(modeValues),
 		),
